@@ -436,6 +436,10 @@ KNOWN_DEFECT_PROBES = [
      "func outer(k : int) -> int\n{\n    func g(n : int, s : int) -> int\n    {\n        func h(m : int) -> int { m <= 0 ? k + s : g(m - 1, s + 3) + 1 };\n        h(n)\n    };\n    g(1, 100)\n}\nfunc main() -> int\n{\n    outer(5)\n}\n"),
     (("C02",), "constred-long-mul-reads-int-value",
      "func main() -> long\n{\n    4294967296L * 3L\n}\n"),
+    # `false ? r1 : r2` over ranges, indexed, as an operand of array arithmetic: the reduced conditional's type is freed while the
+    # addition still points at it (release build: "cannot add type array"; ASan: heap-use-after-free in expr_add_emit)
+    (("C02",), "constred-cond-of-ranges-frees-type-still-used",
+     "func main() -> int\n{\n    let t = ([ 2 ] : int) + (false ? [ 2 .. 3 ] : [ 5 .. 5 ])[0];\n    t[0]\n}\n"),
     # a module's top-level bindings run BEFORE those of the modules it uses (when the main unit does not `use` them first):
     # `let B = A + mb.X` reads mb.X uninitialised (release build: garbage; asserts on: gc_get_int assertion)
     (("C02",), "module-bindings-initialised-before-used-modules",
